@@ -82,6 +82,19 @@ def ScopedGs (vis : List String) : List NGraph → Prop
   | g :: gs => ScopedG vis g ∧ ScopedGs vis gs
 end
 
+mutual
+/-- the two well-formedness clauses the checker asks for besides the declarative statement: the
+    initializer list of every graph has no repetition and no entry name is empty -/
+def WfG : NGraph → Prop
+  | .mk ins inits nodes _ => inits.Nodup ∧ "" ∉ entryNames ins inits ∧ WfNs nodes
+def WfNs : List NNode → Prop
+  | [] => True
+  | (.mk _ _ _ subs) :: rest => WfGs subs ∧ WfNs rest
+def WfGs : List NGraph → Prop
+  | [] => True
+  | g :: gs => WfG g ∧ WfGs gs
+end
+
 def valueNames (ds : List Def) : List String := (ds.filter (fun d => d.1)).map (·.2)
 def nodeNames (ds : List Def) : List String := (ds.filter (fun d => !d.1)).map (·.2)
 
